@@ -74,6 +74,19 @@ def bullet_cases(lengths):
                     yield ('up-end-dashed', b, n, [b] + [ch] * n, (0, 0))
 
 
+def dumbbell_cases(lengths):
+    """a line of at least two cells with a bullet at each end (every bullet is still at an end of a line)"""
+    for n in lengths:
+        if n < 2:
+            continue
+        for b1 in '*oO':
+            for b2 in '*oO':
+                yield ('h', b1, b2, n, [b1 + '-' * n + b2], (0, 0), (n + 1, 0))
+                yield ('v', b1, b2, n, [b1] + ['|'] * n + [b2], (0, 0), (0, n + 1))
+                yield ('dr', b1, b2, n, [b1] + [' ' * (i + 1) + '\\' for i in range(n)] + [' ' * (n + 1) + b2], (0, 0), (n + 1, n + 1))
+                yield ('dl', b1, b2, n, [' ' * (n + 1) + b1] + [' ' * (n - i) + '/' for i in range(n)] + [b2], (n + 1, 0), (0, n + 1))
+
+
 def combo_cases(lengths):
     for n in lengths:
         for b in '*oO':
@@ -256,6 +269,10 @@ def check_case(ctx, case):
         msg = check_bullet(sc, case['glyph'], F((ox + bx) * 8 + 4), F((oy + by) * 16 + 8))
     elif k == 'pair':
         msg = check_pair(sc, case['what'], case['want'])
+    elif k == 'dumbbell':
+        (x1, y1), (x2, y2) = case['at']
+        msg = (check_bullet(sc, case['glyph'][0], F((ox + x1) * 8 + 4), F((oy + y1) * 16 + 8))
+               or check_bullet(sc, case['glyph'][1], F((ox + x2) * 8 + 4), F((oy + y2) * 16 + 8)))
     elif k == 'combo':
         bx, by = case['at']
         msg = check_combo(sc, case['bullet'], F((ox + bx) * 8 + 4), F((oy + by) * 16 + 8), case['what'])
@@ -289,6 +306,9 @@ def run_shard(ctx, shard):
                 ctx.run_case({'kind': 'combo', 'what': dirn, 'glyph': g, 'bullet': b, 'n': n, 'rows': rows, 'at': at, 'ox': ox, 'oy': oy})
         ctx.sample({'combo': rows})
     elif k == 'bullets':
+        for name, b1, b2, n, rows, p1, p2 in dumbbell_cases(shard['lengths']):
+            for ox, oy in [(0, 0), (3, 2)]:
+                ctx.run_case({'kind': 'dumbbell', 'what': name, 'glyph': b1 + b2, 'n': n, 'rows': rows, 'at': (p1, p2), 'ox': ox, 'oy': oy})
         for name, b, n, rows, at in bullet_cases(shard['lengths']):
             for ox, oy in [(0, 0), (2, 1)]:
                 ctx.run_case({'kind': 'bullet', 'what': name, 'glyph': b, 'n': n, 'rows': rows, 'at': at, 'ox': ox, 'oy': oy})
